@@ -17,7 +17,42 @@ PRIMS = {
     },
 }
 
+PRIMS["mutex"] = {
+    "new_lines": ["new mutex"],
+    "quick": {"depth": 7, "random_count": 4000, "random_len": 40},
+    "thorough": {"depth": 9, "random_count": 60000, "random_len": 50},
+}
+
 PROPS = {
+    "C01": {
+        "modules": ["ALock.Props.C01"],
+        "prims": ["mutex"],
+        "fields": ["out", "words"],
+        "monitors": ["C01"],
+        "assumptions": [
+            "poll-granular theorem: every call/poll is atomic; interleavings of atomic operations and the happens-before clause are not covered by this theorem (see partial)",
+            "std off is the special case in which the starvation test never fires",
+        ],
+        "partial": ["interleavings of atomic operations (small-step model)", "release happens-before next acquire (memory-ordering table)"],
+    },
+    "C05": {
+        "modules": ["ALock.Props.C05"],
+        "prims": ["mutex"],
+        "fields": ["out", "w", "words", "ev"],
+        "monitors": ["C05"],
+        "assumptions": ["polls are atomic (single-threaded executor)",
+                        "blocking waiters: a parked thread is re-polled when woken (parking unparks the right thread)"],
+        "partial": ["thread interleavings; lock_blocking waiters parked on a thread"],
+    },
+    "C13": {
+        "modules": ["ALock.Props.C13"],
+        "prims": ["mutex"],
+        "fields": ["out", "w", "words", "ev"],
+        "monitors": ["C13"],
+        "assumptions": ["the 0.5 ms test is scripted through hook H1 (both outcomes at every evaluation point)",
+                        "polls are atomic; the try_lock clause under thread interleavings is covered by the small-step model only"],
+        "partial": ["(b) FIFO among later arrivals: monitored on the implementation and searched; theorem C13_fifo pending"],
+    },
     "C03": {
         "modules": ["ALock.Props.C03"],
         "prims": ["sem"],
